@@ -662,6 +662,22 @@ theorem localGo_meets (ops : StrOps α) (maps : List (MapDict α))
     | drop => rw [h2 hexp]; exact ih _ hany.2
     | any => rw [hexp] at hany; simp [isAny] at hany
 
+theorem getIdentity_meets (ops : StrOps α) (maps : List (MapDict α))
+    (hd : distinctFormats (maps.map (·.identifier)) = true) (allow : Bool) (stmts : List (List (WireAttr α)))
+    (acc : Dict α (List (RVal α)))
+    (hany : (stmts.map fun st => st.map (expectLocal ops (maps.map (declMap ops)) allow)).any
+      (fun es => es.any isAny) = false) :
+    getIdentity ops (maps.map (convOf ops)) allow stmts acc =
+      .ok ((stmts.map fun st => st.map (expectLocal ops (maps.map (declMap ops)) allow)).foldl
+        (fun acc es => Dict.update acc (expectedDict es)) acc) := by
+  induction stmts generalizing acc with
+  | nil => rfl
+  | cons st t ih =>
+    simp only [List.map_cons, List.any_cons, Bool.or_eq_false_iff] at hany
+    simp only [getIdentity, listToLocal, localGo_meets ops maps hd allow st [] hany.1, List.map_cons,
+      List.foldl_cons]
+    exact ih _ hany.2
+
 theorem dictEq_refl {β : Type} [DecidableEq β] (a : Dict α β) : dictEq a a = true := by
   simp [dictEq]
 
